@@ -382,6 +382,10 @@ def fam_unary_failing_sends(seed, dirs=("fwd", "rev")):
                               {"kind": "eager", "seed": seed, "max": 400}, meta={"family": "unaryfail", "done": []})
                 sc["steps"] = sc["steps"][:2] + [{"do": "sendfail", "dir": sdir, "point": kind}] + sc["steps"][2:]
                 out.append(sc)
+                sc2 = copy.deepcopy(sc)
+                sc2["name"] += "-nohooks"
+                sc2["cfg"]["hooks"] = "off"
+                out.append(sc2)
     return out
 
 
@@ -1346,6 +1350,8 @@ def fam_free(seed, n, dirs=("fwd", "rev")):
             if "a" in rs["c"]:
                 rs["c"]["a"] = [op("header")] + rs["c"]["a"] + [op("trailer")]
         pol = {"kind": "free", "seed": rng.randrange(1 << 30)}
+        if i % 2 == 1:
+            cfg["hooks"] = "off"    # see harness/drv/session.go installHooks: nothing of the harness between the goroutines
         kind = rng.choice(["none", "none", "close", "cancel", "carfail", "shutdown", "blocked-cancel", "blocked-cancel", "stop", "stop"])
         if kind == "stop" and d != "rev":
             kind = "close"
